@@ -24,11 +24,11 @@ from vlib.util import fl, scratch_dir, numpy_seed
 from vlib import wbsys, symlib, runhelp
 
 PROPERTY_ID = "C07"
-RULE = ("structure library of vlib/symlib.py (22 structures in the families cubic / hexagonal / low symmetry, consistent "
+RULE = ("structure library of vlib/symlib.py (23 structures in the families cubic / hexagonal / low symmetry, consistent "
         "projection sets, scalar / spin-orbit / ferro-, antiferro-, non-collinear magnetic variants, free lattice and internal "
         "parameters) x random start model (Ham, AA, BB, CC, FF; SS, SA, SHA, SH, SR, SHR with spin) symmetrised by the code x grid "
-        "NKdiv x NKFFT compatible with the lattice family (<= 125 k-points) x <= 7 static (all classes of calculators.static "
-        "found by reflection x {all, internal, external terms}, tetra=False) + <= 2 dynamic / SDCT + <= 4 tabulators + Energy, "
+        "NKdiv x NKFFT compatible with the lattice family (<= 64 k-points, NKdiv >= 2 along the first axis) x <= 5 static (all classes of calculators.static "
+        "found by reflection x {all, internal, external terms}, tetra=False) + <= 1 dynamic / SDCT + <= 3 tabulators + Energy, "
         "Fermi grid of 1-5 levels; non-trivial = group order >= 4, fewer irreducible than full K-points, at least one "
         "compared quantity not zero by symmetry (|full| > 1e-6 of its yardstick), no gap below 2e-3 on the grid; labels count every compared calculator")
 ASSUMPTIONS = ["precondition 'genuinely symmetric' is decided by the harness (E, Berry curvature, spin covariant under every "
@@ -51,7 +51,7 @@ BASE_KEYS = ["Ham", "AA", "BB", "CC", "FF"]
 SPIN_KEYS = ["SS", "SA", "SHA", "SH", "SR", "SHR"]
 EQUAL_AXES = {"sc": [(0, 1), (1, 2)], "fcc": [(0, 1), (1, 2)], "bcc": [(0, 1), (1, 2)], "rhombohedral": [(0, 1), (1, 2)],
               "tetragonal": [(0, 1)], "hexagonal": [(0, 1)], "hexagonal60": [(0, 1)]}
-_small = st.tuples(st.integers(-1, 1), st.integers(-1, 1), st.integers(-1, 1))
+_small = st.tuples(st.integers(-1, 1), st.integers(-1, 1), st.integers(-1, 1)).filter(lambda r: any(r))
 _idx = st.integers(0, 10 ** 6)
 
 
@@ -60,28 +60,30 @@ def case_st(family):
     def _st(draw):
         s = draw(symlib.struct_st(names=symlib.FAMILIES[family], max_wann=10))
         kind = symlib.LIB[s["name"]]["lat"]
-        div = [draw(st.integers(1, 3)) for _ in range(3)]
+        div = [draw(st.integers(2, 3))] + [draw(st.integers(1, 3)) for _ in range(2)]
         fft = [draw(st.integers(1, 3)) for _ in range(3)]
         for a, b in EQUAL_AXES.get(kind, []):
             div[b], fft[b] = div[a], fft[a]
-        while np.prod(div) * np.prod(fft) > 125:
+        while np.prod(div) * np.prod(fft) > 64:
             i = int(np.argmax(np.array(div) * np.array(fft)))
             if fft[i] > 1:
                 fft[i] -= 1
-            else:
+            elif div[i] > 2 or i > 0:
                 div[i] -= 1
+            else:
+                break
             for a, b in EQUAL_AXES.get(kind, []):
                 div[b], fft[b] = div[a], fft[a]
         nE = draw(st.integers(1, 5))
         E0 = draw(fl(-1.2, 0.8))
         dE = draw(st.sampled_from([0.0731, 0.211, 0.5017]))
         return dict(struct=s, rs=draw(st.integers(0, 2 ** 32)),
-                    R=[list(r) for r in draw(st.lists(_small, min_size=1, max_size=3, unique=True))],
+                    R=[list(r) for r in draw(st.lists(_small, min_size=2, max_size=3, unique=True))],
                     cmode=draw(st.sampled_from(["site", "exact", "site"])), disp=draw(st.sampled_from([0.01, 0.04])),
                     decay=draw(st.sampled_from([1.0, 2.0])), NKdiv=div, NKFFT=fft,
-                    static=draw(st.lists(_idx, min_size=2, max_size=7, unique=True)),
-                    dynamic=draw(st.lists(_idx, min_size=0, max_size=2, unique=True)),
-                    tab=draw(st.lists(_idx, min_size=1, max_size=4, unique=True)),
+                    static=draw(st.lists(_idx, min_size=2, max_size=5, unique=True)),
+                    dynamic=draw(st.lists(_idx, min_size=0, max_size=1, unique=True)),
+                    tab=draw(st.lists(_idx, min_size=1, max_size=3, unique=True)),
                     Efermi=[round(E0 + 0.0137 + i * dE, 6) for i in range(nE)],
                     kprobe=[draw(fl(0.05, 0.45)) for _ in range(3)])
     return _st()
@@ -247,7 +249,8 @@ def check(case):
             # inside the multiplet (checked with the code's own random_gauge testing option) cannot agree between k and g k
             gs = gauge_spread(system, grid, cap.K_list, chosen[name][1], case["rs"]) if np.all(np.isfinite(a)) else 0.0
             tag = "|gauge-dependent-at-degenerate-k" if gs > 0.05 * err else ""
-            found.append((f"integrated:{name}{tag}",
+            fam = "sdct.SDCT_term" if (tag and name.startswith("sdct.")) else name
+            found.append((f"integrated:{fam}{tag}",
                           (f"[value changes by {gs:.3e} under a unitary rotation inside degenerate multiplets] " if tag else "") +
                           f"{symlib.label(s)} group order {ngroup}, grid {case['NKdiv']}x{case['NKFFT']}: {name} irreducible+symmetrised "
                           f"vs full grid differ by {err:.3e} (yardstick {Y:.3e}, tolerance {tol:.1e}; max|full| {np.max(np.abs(b)) if b.size else 0:.3e}, "
@@ -299,5 +302,5 @@ def check(case):
               *labels, *skipped, known=[f[0] for f in named])
 
 
-SUBS = [Sub(f, case_st(f), check, quick=2, thorough=64, budget_quick=85, budget_thorough=850, per_shard_min=1,
+SUBS = [Sub(f, case_st(f), check, quick=4, thorough=64, budget_quick=85, budget_thorough=850, per_shard_min=1,
             group="reduction") for f in ("cubic", "hexagonal", "lowsym")]
